@@ -1,0 +1,49 @@
+//! Verification hooks: a thread-local append-only event log.
+//!
+//! Only compiled with the `_verif_hooks` feature. The events are a side channel that lets an
+//! external monitor see which internal paths an execution took (coverage evidence); nothing in
+//! the crate reads them.
+
+use std::cell::RefCell;
+
+/// An internal step an external monitor may want to know was reached.
+#[allow(missing_docs)]
+#[derive(Debug, Clone, Copy, PartialEq, Eq, Hash)]
+pub enum Event {
+    /// `write()`: appending to the buffered tail failed.
+    FailAppend,
+    /// `write()`: the parser returned an error.
+    FailParse,
+    /// `write()`: first buffering of an unconsumed tail failed.
+    FailInitWith,
+    /// `end()`: the parser returned an error.
+    FailParseInEnd,
+    /// A graceful bail-out (handlers + raw flush) was performed.
+    GracefulBailOut,
+    /// The parser switched to the lexer.
+    SwitchToLexer,
+    /// The parser switched to the tag scanner.
+    SwitchToTagScanner,
+    /// Unconsumed input was buffered for the first time (`n` bytes).
+    BufferInit(usize),
+    /// The buffer was shifted by `n` bytes.
+    BufferShift(usize),
+    /// The sink was told about an encoding change.
+    EncodingSwitch,
+}
+
+thread_local! {
+    static LOG: RefCell<Vec<Event>> = const { RefCell::new(Vec::new()) };
+}
+
+/// Appends an event to the current thread's log.
+#[inline]
+pub fn emit(event: Event) {
+    LOG.with(|l| l.borrow_mut().push(event));
+}
+
+/// Takes (and clears) the current thread's log.
+#[must_use]
+pub fn take_events() -> Vec<Event> {
+    LOG.with(|l| std::mem::take(&mut *l.borrow_mut()))
+}
